@@ -302,7 +302,11 @@ func (configgen *ConfigGeneratorImpl) buildGatewayTCPBasedFilterChains(
 				if tlsHostsByPort[port.Number] == nil {
 					tlsHostsByPort[port.Number] = map[string]string{}
 				}
-				model.CheckDuplicates(mergedGateway.TLSServerInfo[server].SNIHosts, server.Bind, tlsHostsByPort[port.Number])
+				// one host at a time: CheckDuplicates records nothing when any host of the list is already known, and
+				// the other hosts of such a server would stay unprotected
+				for _, sniHost := range mergedGateway.TLSServerInfo[server].SNIHosts {
+					model.CheckDuplicates([]string{sniHost}, server.Bind, tlsHostsByPort[port.Number])
+				}
 			}
 		}
 		for _, server := range serversForPort.Servers {
